@@ -329,7 +329,11 @@ func (c *Ctx) c07Flags() {
 	}
 	if fn := c.MustMethod("C07-5", "/pkg/builder/model", "MethodEntry", "Results"); fn != nil {
 		key := FnKey(fn)
+		styleRet := eqConst(isField(fldStyle), `"return"`)
+		isErr := func(t *core.Term) bool { return t.IsCallTo(fnIsErrorType) }
 		n := 0
+		blocked := map[*ssa.BasicBlock]bool{}
+		var anyAppend *ssa.Call
 		for _, b := range fn.Blocks {
 			for _, in := range b.Instrs {
 				ca, ok := in.(*ssa.Call)
@@ -337,19 +341,36 @@ func (c *Ctx) c07Flags() {
 					continue
 				}
 				n++
+				anyAppend = ca
+				blocked[b] = true
 				d := c.ReachOf(ca)
-				styleRet := eqConst(isField(fldStyle), `"return"`)
 				el := c.varargElem(ca)
 				isResType := el != nil && el.Kind == "call" && strings.HasSuffix(el.Name, ").Type") && el.Contains(func(t *core.Term) bool { return t.IsCallTo("(*go/types.Signature).Results") })
 				r.Check("C07-5", sprintf("%s:append%d:result-type", key, n), c.Pos(ca.Pos()), isResType, "Results() must collect the types of the signature's results")
-				if d.Implies(c.M(true, styleRet)) {
-					continue
-				}
-				r.Check("C07-5", sprintf("%s:append%d:arg-style-only-errors", key, n), c.Pos(ca.Pos()), d.Implies(c.M(false, styleRet)) && d.Implies(c.M(true, func(t *core.Term) bool { return t.IsCallTo(fnIsErrorType) })),
-					"outside return style only error-typed results count; reach: "+d.Describe(c.O))
+				r.Check("C07-5", sprintf("%s:append%d:counted-only-if", key, n), c.Pos(ca.Pos()), d.Implies(c.M(true, styleRet), c.M(true, isErr)),
+					"a result is counted although the style is not return and it is not an error; reach: "+d.Describe(c.O))
 			}
 		}
-		r.Check("C07-5", key+":appends", c.Pos(fn.Pos()), n == 2, sprintf("expected the two style branches, found %d appends", n))
+		r.Check("C07-5", key+":appends", c.Pos(fn.Pos()), n >= 1, "no append found in Results()")
+		if anyAppend != nil {
+			// a result is skipped only if the style is not return and it is not an error
+			if lp := loopOf(anyAppend.Block()); lp != nil {
+				av := c.ReachAvoid(fn, blocked)
+				for lb := range lp {
+					for _, s := range lb.Succs {
+						if !s.Dominates(lb) || !lp[s] || blocked[lb] {
+							continue
+						}
+						d := av.At(lb)
+						if len(d) == 0 {
+							continue
+						}
+						r.Check("C07-5", key+":skipped-only-if", c.Pos(fn.Pos()), d.Implies(c.M(false, styleRet)) && d.Implies(c.M(false, isErr)),
+							"a result can be left out although the style is return or it is an error; reach of the latch avoiding the appends: "+d.Describe(c.O))
+					}
+				}
+			}
+		}
 	}
 	// node flags
 	if fn := c.MustMethod("C07-5", "/pkg/builder/model", "StructMethodNode", "ReturnsError"); fn != nil {
